@@ -1,5 +1,6 @@
 """C11 — task queue under the deterministic scheduler: real FairMultiFIFOQueue vs Lean Q model vs sequential oracle."""
 import json
+import os
 import random
 
 import common
@@ -172,6 +173,110 @@ def stage_serial_consumer(ctx, n):
     importlib.reload(qmod)
 
 
+def stage_once_drain(ctx):
+    """"waiting for the queue to drain returns only when nothing is queued or running": the daemon's own drain wait (the real
+    `update_loop(once=True)`), with the harness playing the worker threads from inside the loop's waits.  A pass over a node
+    with 1-3 copies to check queues that many tasks; every script of worker actions - take a task (it is running from then
+    on), finish the oldest running task, put a deferred follow-up task, let its delay expire - is played one action per wait.
+    Oracle: at the instant the loop returns no task has been taken and not finished, none is queued and none is deferred; and
+    the loop does return once that is so."""
+    import itertools
+    import shutil
+    import alpenhorn.daemon.update as upd
+    import alpenhorn.scheduler.task as tmod
+    import env as envmod
+    import world as worldmod
+    from alpenhorn.scheduler import FairMultiFIFOQueue
+    scripts = []
+    for ntask in (1, 2, 3):
+        for order in (["take", "finish"] * ntask, ["take"] * ntask + ["finish"] * ntask, ["take", "defer", "finish", "expire", "take", "finish"] +
+                      ["take", "finish"] * (ntask - 1), ["take", "take", "finish", "defer", "finish", "expire", "take", "finish"] if ntask > 1 else None):
+            if order:
+                scripts.append((ntask, order))
+
+    class Stop(Exception):
+        pass
+    with envmod.Env() as e:
+        for ntask, script in scripts:
+            w = worldmod.World(e)
+            db = w.db
+            for m in (db.StorageTransferAction, db.ArchiveFileCopyRequest, db.ArchiveFileImportRequest, db.ArchiveFileCopy,
+                      db.ArchiveFile, db.ArchiveAcq, db.StorageNode, db.StorageGroup):
+                m.delete().execute()
+            shutil.rmtree(os.path.join(e.tmp, "roots"), ignore_errors=True)
+            n1 = w.node("n1", w.group("g1"))
+            acq = w.acq("acq")
+            for i in range(ntask):
+                w.copy(w.file(acq, f"f{i}.dat", b"data %d" % i), n1, has="M")
+            q = FairMultiFIFOQueue()
+            held, todo, log = [], list(script), []
+
+            class Abort:
+                waits = 0
+
+                def is_set(self):
+                    return False
+
+                def wait(self, timeout=None):
+                    Abort.waits += 1
+                    if Abort.waits > 60:
+                        raise Stop()
+                    act = todo.pop(0) if todo else ("finish" if held else "take")
+                    if act == "take":
+                        item = q.get(timeout=0.001)
+                        if item is not None:
+                            held.append(item)
+                        log.append(f"a worker takes {item[0] if item else None}")
+                    elif act == "finish" and held:
+                        task, key = held.pop(0)
+                        task()
+                        q.task_done(key)
+                        log.append(f"the worker running {task} finishes it")
+                    elif act == "defer":
+                        q.put(lambda: None, "follow-up", wait=10 ** 6)
+                        log.append("a deferred follow-up task is put (delay not elapsed)")
+                    elif act == "expire":
+                        q._deferrals = [(k * 1e-9, *d[1:]) for k, d in enumerate(q._deferrals)]
+                        log.append("the delay elapses")
+                    return False
+            saved = (upd.serial_io, upd.global_abort)
+            upd.serial_io = lambda q_: None
+            upd.global_abort = Abort()
+            e.set_host("h1")
+            rc = "never-returned"
+            try:
+                rc = upd.update_loop(q, _Pool(), once=True)
+            except Stop:
+                pass
+            finally:
+                upd.serial_io, upd.global_abort = saved
+            state = dict(running=len(held), queued=q.qsize, deferred=q.deferred_size, inprogress=q.inprogress_size)
+            ctx.case(("once-drain", ntask, tuple(script)), nontrivial=True,
+                     sample={"script": script, "log": log, "returned": rc, "state_at_return": state} if (ntask, len(script)) == (2, 4) else None)
+            ctx.count(f"once-drain:{'returned' if rc != 'never-returned' else 'never'}")
+            if rc == "never-returned":
+                if not (held or q.qsize or q.deferred_size):
+                    ctx.violation("drain:never-returns", f"update_loop(once=True) did not return within 60 waits although nothing is queued, "
+                                  f"deferred or running ({log[-4:]})", {"kind": "once-drain", "script": script, "log": log})
+            elif held or q.qsize or q.deferred_size or todo:
+                ctx.violation("drain:returned-early", f"update_loop(once=True) declared the update complete and returned while {len(held)} task(s) "
+                              f"were running on workers, {q.qsize} queued and {q.deferred_size} deferred (worker actions so far: {log})",
+                              {"kind": "once-drain", "script": script, "log": log, "state": state})
+
+
+class _Pool:
+    """a worker pool of two as far as update_loop is concerned (the harness plays the workers)"""
+
+    def __len__(self):
+        return 2
+
+    def check(self):
+        pass
+
+    def shutdown(self):
+        pass
+
+
 def run(ctx):
     ok = common.proof_stage(ctx, MODULE)
     n = 1500 if ctx.quick() else 40000
@@ -189,6 +294,7 @@ def run(ctx):
             ctx.violation("queue:" + p.split("(")[0][:40].replace(" ", "_"), p,
                           {"kind": "qschedule", "mid_cs": True, "programs": r["progs"], "keys": r["keys"], "schedule": r["taken"], "problem": p})
     stage_serial_consumer(ctx, 150 if ctx.quick() else 4000)
+    stage_once_drain(ctx)
     ctx.coverage["rule"] = ("2-4 threads (producers with immediate/deferred puts, consumers with timed gets and task_done, joiners, size "
                             "queries, task_done on foreign keys) over 1-3 FIFO keys on the real queue with threading/monotonic/sleep "
                             "replaced by the cooperative shim; corpus under 40 seeded schedules each, then random programs and schedules; "
@@ -213,6 +319,9 @@ def refine_deadlock(r, probs):
 
 def replay(ctx, path):
     r = json.load(open(path))
+    if "programs" not in r:
+        import sys
+        return common.replay_by_rerun(ctx, path, sys.modules[__name__])
     progs = [[tuple(op) for op in p] for p in r["programs"]]
     run = qharness.execute(progs, r["keys"], choices=list(r["schedule"]), mid_cs=bool(r.get("mid_cs")))
     probs = refine_deadlock(run, qharness.oracle(run))
